@@ -36,6 +36,8 @@ def alpha_case(draw, tier):
     fs = 10 ** draw(st.floats(-1, 4))
     fmax = fs / 2 * draw(st.one_of(st.just(1.0), st.floats(0.01, 1.0), st.floats(1e-4, 1.0)))
     fmin = fmax * 10 ** (-draw(st.floats(1.3, 6.0)))
+    if draw(st.integers(0, 2 ** 20)) % 4 == 3:
+        fmin = fmax * 10 ** (-draw(st.floats(0.08, 1.3)))       # narrow bands, down to a fifth of a decade
     alpha = draw(st.one_of(st.floats(0.01, 2.0), st.sampled_from([0.01, 0.5, 1.0, 1.5, 2.0])))
     return {"fs": fs, "fmin": fmin, "fmax": fmax, "alpha": alpha, "pink": draw(st.integers(0, 5)) == 5,
             "seed": draw(st.integers(0, 10 ** 6))}
@@ -77,11 +79,22 @@ def oracle_alpha(case):
             d1 = 10 * math.log10(float(density(g, np.array([1.0]))[0]))
             if not abs(d1) <= 1.0:
                 viol.append(V("density_at_1Hz_not_1", dB=d1, alpha=alpha, fs=case["fs"], fmin=case["fmin"], fmax=case["fmax"]))
+    else:
+        # a band too narrow to have an interior a factor 4 inside both corners: the centre of the band, with the
+        # tolerance widened to 2 dB (a one- to five-section cascade whose upper corner may sit at Nyquist deviates by
+        # up to 1.6 dB there on the pinned tree; "about 1 dB" in the statement)
+        fc = math.sqrt(max(case["fmin"], g.fmin) * min(case["fmax"], g.fmax))
+        worst_c = abs(10 * math.log10(float(density(g, np.array([fc]))[0]) * fc ** alpha))
+        if not worst_c <= 2.0:
+            viol.append(V("density_not_f_to_minus_alpha_at_band_centre", dB=worst_c, f=fc, alpha=alpha, fs=case["fs"], fmin=case["fmin"],
+                          fmax=case["fmax"], sections=int(g._a_coeffs.shape[0])))
     labels = ["alpha:pink" if case["pink"] else "alpha:generic"]
     if hi > lo and lo <= 1.0 <= hi:
         labels.append("alpha:1Hz-in-band")
     if decades >= 2:
         labels.append("alpha:>=2decades")
+    if not hi > lo:
+        labels.append("alpha:narrow-band,sections=%d" % int(g._a_coeffs.shape[0]))
     return Res(viol, decades >= 2 and hi > lo, labels, {"worst_alpha_dB": worst})
 
 
@@ -208,5 +221,6 @@ PARTS = [
     GridPart("fftnoise", fft_cases, oracle_fft),
     Part("band_limited", band_case, oracle_band, n_quick=150, n_thorough=2000),
 ]
-QUOTAS = {"alpha:>=2decades": {"quick": 400, "thorough": 8000}, "alpha:1Hz-in-band": {"quick": 100, "thorough": 2000},
-          "fft:even": {"quick": 120, "thorough": 500}, "band:hiNyq": {"quick": 30, "thorough": 500}}
+QUOTAS = {"alpha:>=2decades": {"quick": 300, "thorough": 6000}, "alpha:1Hz-in-band": {"quick": 50, "thorough": 1000},
+          "fft:even": {"quick": 120, "thorough": 500}, "band:hiNyq": {"quick": 30, "thorough": 500},
+          "alpha:narrow-band,sections=2": {"quick": 10, "thorough": 200}}
